@@ -224,6 +224,18 @@ def c02_6(ctx, r):
         forms = guard_forms(ctx, fn, n)
         r.check(any((not p) and "poll()" in f and "is None" in f for f, p in forms), "completion is declared only after poll() returned an exit status", key_of(fn, "poll guard"), fn.loc(n.ast),
                 "completion is declared without poll() having returned a non-None status", guards=sorted(("" if p else "not ") + f for f, p in forms))
+    # a failure to record the result is not swallowed: is_complete() must not return normally after _complete() raised
+    for n in comp:
+        seen, stack = set(), [d for d, k, _ in n.succ if k == "exc"]
+        while stack:
+            x = stack.pop()
+            if x.id in seen:
+                continue
+            seen.add(x.id)
+            stack.extend(d for d, k, _ in x.succ)
+        r.check(cfg.exit.id not in seen, "an exception from _complete() propagates out of is_complete()", key_of(fn, "failed result write swallowed"), fn.loc(n.stmt),
+                "is_complete() can return (True) after _complete() raised - e.g. a results-lock timeout or an I/O error while appending the row: the queue takes the job for finished and starts its dependents "
+                "although no outcome was recorded", "has a recorded outcome (finished, failed or canceled)")
     # True is returned only if _is_complete or not pending
     for ret, conds, path in return_conditions(ctx, fn):
         txt = ctx.src(ret) if ret is not None else "None"
